@@ -815,6 +815,14 @@ def eval_case(case: dict, with_model=False):
 # ----------------------------------------------------------------------------- case enumeration
 
 SCALES = [(2.0, 2.0), (0.25, 0.25), (1024.0, 1024.0), (2.0 ** -12, 2.0 ** -12), (8.0, 0.5), (0.125, 64.0)]
+# far-off (exact, power-of-two) factors for the sites whose definition is homogeneous of degree 0 in the weights with NO clamp in the
+# code that is meant to bite (MSE / weighted calibration / normalized entropy clamp their denominators at eps by design: witness
+# theorems in TE/Props/C17).  click_through_rate adds finfo.tiny = 2^-126 to the denominator: by TE.C17.ctr_weight_scale_eps the
+# run on c·w is the run on w with tiny/c, still < 2^-80 for c = 2^-40 — a guard of eps-size instead of tiny-size shows here.
+FAR_SCALES = {"click_through_rate": [(2.0 ** -40, 2.0 ** -40), (2.0 ** 40, 2.0 ** 40), (2.0 ** -30, 2.0 ** -30)],
+              "mean": [(2.0 ** -40, 2.0 ** -40), (2.0 ** 40, 2.0 ** 40)],
+              "binary_auroc": [(2.0 ** -40, 2.0 ** -40), (2.0 ** 30, 2.0 ** 30)],
+              "wasserstein_1d": [(2.0 ** -40, 2.0 ** -40), (2.0 ** 40, 2.0 ** 40)]}
 
 
 def perm_of(rng: Rng, C):
@@ -841,7 +849,7 @@ def gen_cases(rng: Rng, sizes, reps: int, only_model=False):
                         maps = sorted(MAPS01 if s.domain == "01" else MAPSR)
                         out.append(mkcase(name, kind, ci, n, seed, map=maps[(r + ci + rng.randrange(len(maps))) % len(maps)]))
                     elif kind == "scale":
-                        for sc in SCALES:                      # every factor, a fresh data set each
+                        for sc in SCALES + FAR_SCALES.get(name, []):      # every factor, a fresh data set each
                             out.append(mkcase(name, kind, ci, min(rng.choice(sizes), s.nmax), rng.randrange(1 << 40), c=list(sc)))
                     elif kind == "dup":
                         out.append(mkcase(name, kind, ci, n, seed))
